@@ -1,3 +1,4 @@
 import ArroyProofs.AuditCmd
 import ArroyProofs.Properties.C11
+import ArroyProofs.Properties.C11Real
 #audit Arroy.C11
